@@ -164,7 +164,11 @@ func (s *TunnelServiceHandler) openReverseTunnel(stream tunnelpb.TunnelService_O
 	_ = stream.SendHeader(metadata.Pairs(grpctunnelNegotiateKey, grpctunnelNegotiateVal))
 
 	ch := newReverseChannel(stream, &s.tunnelOpts, s.unregister)
-	defer ch.Close()
+	// If the channel is done because the stream's context ended (it derives from
+	// it) the receive loop may not have recorded the cause yet: record it here
+	// rather than marking a clean close. (Err() is nil after a clean close, so
+	// this is the same as Close() in that case.)
+	defer func() { ch.close(ch.Err()) }()
 
 	var key interface{}
 	if s.affinityKey != nil {
